@@ -94,12 +94,19 @@ func worldGroups(w *World) {
 			if variant == 1 {
 				f["custom_domains"] = []string{"other.example.test"}
 			}
+			if variant == 2 {
+				// the group's own host first, then one more: the second cannot belong to the same group
+				f["custom_domains"] = []string{domain, "other.example.test"}
+			}
 		default:
 			f["proxy_type"] = "tcpmux"
 			f["multiplexer"] = "httpconnect"
 			f["custom_domains"] = []string{domain}
 			if variant == 1 {
 				f["custom_domains"] = []string{"other.example.test"}
+			}
+			if variant == 2 {
+				f["custom_domains"] = []string{domain, "other.example.test"}
 			}
 		}
 		return f
@@ -232,7 +239,7 @@ func worldGroups(w *World) {
 		served, up, detail := probe()
 		ids := memberIDs()
 		if len(ids) == 0 {
-			if served != "" || (up && kind == "tcp") {
+			if served != "" || (up && kind != "http") {
 				viol("endpoint", "endpoint-exists-without-members", "%s: group is empty but its endpoint answered (served=%q up=%v); history: %v", when, served, up, history)
 			}
 			return
@@ -359,6 +366,11 @@ func worldGroups(w *World) {
 				key = []string{"key-wrong", "", "key-righ", "key-right-x", "KEY-RIGHT"}[r.Intn(5)]
 			case 1:
 				variant = 1
+			case 2:
+				if kind != "tcp" && len(members) > 0 {
+					variant = 2 // a join that fails half-way: the first host fits the group, the second does not
+					w.Probe("groups.join_failing_on_second_host")
+				}
 			}
 			before := memberIDs()
 			jc := groupCreds
